@@ -1208,16 +1208,9 @@ def r_atomline(ctx) -> RuleResult:
             res.notes.append(f"{ver}: the atom record is not made by one function of one line ({len(makers)} candidates): sample lines not followed")
             continue
         f = makers[0]
-        calls = {}
-        for g in [ctx.cg.funcs[q] for q in ctx.cg.closure([f.fq])]:
-            if g.cls is None and "." not in g.qualname:
-                calls[g.name] = (g.node, consts_of(g))
-        from .common import record_classes, record_methods
-        calls.update(record_methods(ctx, consts_of, f.module))
+        from .common import sample_evaluator
         for smp, exp, what in samples[ver]:
-            pe = PathEval(calls)
-            pe.record_classes = record_classes(ctx, f.module)
-            env = consts_of(f)
+            pe, env = sample_evaluator(ctx, f)
             env[params_of(f.node)[0]] = list(smp) if isinstance(smp, list) else smp
             try:
                 falls, lefts = pe.block(f.node.body, [PState(env)])
@@ -1482,6 +1475,8 @@ def r_serialsample(ctx) -> RuleResult:
         ("chloroform: one hydrogen next to carbon, another element three times", mol({0: ("Cl", None, None, 0), 1: ("C", None, None, 1), 2: ("Cl", None, None, 0), 3: ("H", None, None, 2), 4: ("Cl", None, None, 0)},
                                                                                         [(1, 0), (1, 2), (1, 3), (1, 4)])),
         ("a 13C methyl radical: mass and radical on one atom", mol({0: ("H", None, None, 0), 1: ("H", None, None, 0), 2: ("C", 13, 2, 1), 3: ("H", None, None, 0)}, [(2, 0), (2, 1), (2, 3)])),
+        ("a hydroxymethyl radical with 18O: the radical on one atom, the isotope on another",
+         mol({0: ("H", None, None, 0), 1: ("O", 18, None, 1), 2: ("C", None, 2, 2), 3: ("H", None, None, 3), 4: ("H", None, None, 3)}, [(2, 1), (1, 0), (2, 3), (2, 4)], order=[3, 1, 4, 2, 0])),
         ("sodium chloride: two atoms, no bond, no carbon", mol({0: ("Na", None, None, 1), 1: ("Cl", 37, None, 0)}, [])),
         ("helium-3: one atom", mol({0: ("He", 3, None, 0)}, [])),
         ("decane skeleton with a triplet carbene at one end: indices above nine", mol({i: ("C", None, 3 if i == 9 else None, min(i, 9 - i)) for i in range(10)}, [(i, i + 1) for i in range(9)], order=[9, 3, 0, 7, 1, 8, 2, 6, 4, 5])),
